@@ -672,7 +672,25 @@ def history_header_rule(ctx, clause: str, rule: str = "G10"):
     # getsize / stat().st_size / tell() answer from the state. The header is due in the first two and only there.
     from sa.inline import Inliner
     from sa.inteval import NotEvaluable, int_eval
-    inl = Inliner(f.node, rd)
+    inl_ = Inliner(f.node, rd)
+
+    class _Inl:
+        """Names looked through; a flag assigned in both arms of one `if` (`if exists: flag = size == 0 else: flag = True`) is read as
+        the conditional expression it is."""
+
+        @staticmethod
+        def expand(t_):
+            if isinstance(t_, ast.Name):
+                ds = [d for d in rd.defs_of(t_) if d.kind == "assign" and d.value is not None]
+                if len(ds) == 2 and len(list(rd.defs_of(t_))) == 2:
+                    for n_ in own_nodes(f.node):
+                        if isinstance(n_, ast.If) and n_.orelse:
+                            in_body = [d for d in ds if any(d.stmt is x for b_ in n_.body for x in ast.walk(b_))]
+                            in_else = [d for d in ds if any(d.stmt is x for b_ in n_.orelse for x in ast.walk(b_))]
+                            if len(in_body) == 1 and len(in_else) == 1 and in_body[0] is not in_else[0]:
+                                return ast.IfExp(test=inl_.expand(n_.test), body=inl_.expand(in_body[0].value), orelse=inl_.expand(in_else[0].value))
+            return inl_.expand(t_)
+    inl = _Inl
     guarded = [c for c in rows if any(not (isinstance(t_, ast.Compare) and "rank" in u(t_)) and "state_csv_path" not in u(t_) or True for t_, _ in guards_of(pm, c))
                and any(any(k_ in u(inl.expand(t_)) for k_ in ("exists", "getsize", "st_size", "tell")) for t_, _ in guards_of(pm, c))]
     okh, why = False, "the CSV header row is not guarded by an emptiness test of the history file"
